@@ -49,6 +49,11 @@ class E2E:
         for i in range(0, len(rel), per_invocation):
             rc, out = C.run([self.cli] + rel[i:i + per_invocation], cwd=self.M.root, extra_env=self.M.env(), timeout=600)
             rcs.append((rc, out, rel[i:i + per_invocation]))
+            if rc != 0 and per_invocation > 1:
+                # the refusal is recorded above; generate the other files of the invocation on their own so that the
+                # rest of the sample can still be examined
+                for f in rel[i:i + per_invocation]:
+                    C.run([self.cli, f], cwd=self.M.root, extra_env=self.M.env(), timeout=600)
         self.gen_s = time.time() - t0
         return rcs
     def extract(self):
